@@ -35,19 +35,22 @@ def c09(c):
            "grid uniform/random/narrow-peak/zero-width-bins/previously refined, data one-nonzero-bin/two-spikes/geometric/denormal-scale/"
            "constant/sparse/random/all-zero); plus hep::vegas runs (2..8/30 iterations, peaked integrands) whose every logged (x, bin, w) is "
            "checked against the grid recorded in the result, scripted runs hitting canonical 0 / largest-below-1 / k/bins +-1ulp in every "
-           "coordinate, direct vegas_icdf(u=1.0 and u=0), and runs with an all-zero iteration. non-trivial = non-uniform input grid, "
+           "coordinate, direct vegas_icdf(u=1.0 and u=0), runs with an all-zero iteration, and mpi_vegas runs on the thread MPI shim (2..5 ranks, "
+           "iterations with fewer calls than ranks or so few that a rank sees only zeros) where every rank's next grid must be the same judged refinement "
+           "of the reduced data; in every run the proposed next grid is judged against the used grid and the reported adjustment data. non-trivial = non-uniform input grid, "
            "non-constant data and equidistribution actually judged (direct), or an adaptive run; distinct = hash of (T, grid, data) / run config.",
       assumptions=["equidistribution tolerance 16*(bins+8)*eps_T*sum(imp)*(1+alpha) + 8*eps_T*local density (rounding of the running sums; the boundary is interpolated from the right edge of an old bin, so its absolute error is a few eps of that edge, at most 1)",
                    "dimensions whose smallest smoothed share would be below 64*min_normal(T) are validated for grid validity only (underflow makes T and long double legitimately differ)",
                    "data whose smoothed sum overflows are not generated",
                    "reference importance function written from the documentation in long double"])
 def c07(c):
-    c.std([dict(src='c07_vegas_grid.cpp', build='asan', shards={'quick': 5, 'thorough': 5}),
-           dict(src='c07_vegas_grid.cpp', build='clang', shards={'quick': 1, 'thorough': 5}, tiers=('thorough',)),
-           dict(src='c07_vegas_grid.cpp', build='fuzz', shards={'quick': 1, 'thorough': 4}, fuzz_runs={'quick': 3000, 'thorough': 200000})])
+    c.std([dict(src='c07_vegas_grid.cpp', build='asan', shards={'quick': 5, 'thorough': 5}, extra_inc=SHIM, libs=['-pthread']),
+           dict(src='c07_vegas_grid.cpp', build='clang', shards={'quick': 1, 'thorough': 5}, tiers=('thorough',), extra_inc=SHIM, libs=['-pthread']),
+           dict(src='c07_vegas_grid.cpp', build='fuzz', shards={'quick': 1, 'thorough': 4}, fuzz_runs={'quick': 3000, 'thorough': 200000}, extra_inc=SHIM, libs=['-pthread'])])
     c.require('fuzz_inputs', 100)
     for k in ('refinements', 'equi_boundaries_checked', 'all_zero_refinements', 'calls_checked', 'zero_iterations', 'scripted_runs',
-              'scripted_u_zero', 'scripted_u_max', 'icdf_extreme_calls', 'adaptive_runs', 'icdf_calls_in_more_than_8_dimensions'):
+              'scripted_u_zero', 'scripted_u_max', 'icdf_extreme_calls', 'adaptive_runs', 'icdf_calls_in_more_than_8_dimensions',
+              'mpi_vegas_runs', 'mpi_rank_iterations_with_only_zeros_while_others_non-zero', 'in_run_next_grids_judged_for_equidistribution'):
         c.require(k)
 
 
@@ -65,7 +68,7 @@ def c08(c):
            dict(src='c08_weights.cpp', build='clang', shards={'quick': 1, 'thorough': 5}, tiers=('thorough',), extra_inc=SHIM, libs=['-pthread']),
            dict(src='c08_weights.cpp', build='fuzz', shards={'quick': 1, 'thorough': 4}, fuzz_runs={'quick': 3000, 'thorough': 200000}, extra_inc=SHIM, libs=['-pthread'])])
     c.require('fuzz_inputs', 100)
-    for k in ('refinements', 'vectors_checked', 'all_zero_data', 'channels_ratio_judged', 'adaptive_runs', 'run_vectors_checked', 'zero_iterations', 'mpi_runs', 'used_weights_judged_against_previous_result', 'runs_started_from_reloaded_initial_checkpoint'):
+    for k in ('refinements', 'vectors_checked', 'all_zero_data', 'channels_ratio_judged', 'adaptive_runs', 'run_vectors_checked', 'zero_iterations', 'mpi_runs', 'used_weights_judged_against_previous_result', 'runs_started_from_reloaded_initial_checkpoint', 'runs_with_a_cut_where_all_densities_vanish'):
         c.require(k)
 
 
@@ -123,12 +126,18 @@ def _t_eng_variants(nsets):
            "one of the nine standard engines (started at a random stream offset), dims 1..5, 1..3 iterations with calls in {0,1,7,13,100}, "
            "integrand value pattern in {finite, zero, NaN-mixed, +-inf, mixed}; the integrand reads the raw-draw counter at every invocation. "
            "Plus 128 synthetic engines with ranges 2^j, 2^j+1, 2^j-1, offset (j in 1..63), 2^64 and decimal ranges: measured cost of one canonical "
-           "number vs hep::random_number_usage, and a PLAIN run. distinct = (engine, T, integrator, dims, calls, pattern); all are non-trivial.",
+           "number vs hep::random_number_usage, and a PLAIN run. Multi-channel integrands take dims random numbers and produce 1..dims coordinates "
+           "(map_dimensions != dimensions). Plus mpi_plain / mpi_vegas / mpi_multi_channel on the thread MPI shim (2..5 ranks, minstd_rand0 and mt19937, "
+           "calls also below / just above the number of ranks) with per-rank thread-local draw counters: draws between a rank's own calls, the distance "
+           "each rank's generator has moved at every callback, and the generator stored in the checkpoint on every rank. "
+           "distinct = (engine, T, integrator, dims, calls, pattern); all are non-trivial.",
       assumptions=["the cost k of one canonical number is MEASURED on the running standard library (one generate_canonical on a counting engine), then compared with the library's predictor",
                    "engines are the nine standard ones and the listed synthetic ranges; other user engines are not explored"])
 def c10(c):
-    c.std([dict(src='c10_draws.cpp', build='asan', variants=_t_eng_variants(4), shards={'quick': 1, 'thorough': 2})])
-    for k in ('engine_type_pairs_checked', 'synthetic_ranges_checked', 'calls_checked', 'runs', 'runs_with_k>=2', 'scripted_runs', 'scripted_zero_numbers'):
+    c.std([dict(src='c10_draws.cpp', build='asan', variants=_t_eng_variants(4), shards={'quick': 1, 'thorough': 2}, extra_inc=SHIM, libs=['-pthread'])])
+    for k in ('engine_type_pairs_checked', 'synthetic_ranges_checked', 'calls_checked', 'runs', 'runs_with_k>=2', 'scripted_runs', 'scripted_zero_numbers',
+              'mpi_runs', 'mpi_calls_checked', 'mpi_stored_generators_checked', 'multi_channel_runs_with_map_dimensions_differing_from_dimensions',
+              'mpi_multi_channel_runs_with_map_dimensions_differing_from_dimensions'):
         c.require(k)
 
 
